@@ -273,6 +273,47 @@ theorem feasible_spec_iff (space : List ε) (k : ℕ) (x : List ε) :
     feasibleB space k x = true ↔ (x.Nodup ∧ (∀ e ∈ x, e ∈ space) ∧ x.length = k) :=
   feasibleB_iff space k x
 
+/-- **Candidate labels may be of any type; feasibility does not depend on how candidates are labelled.**
+    Every theorem of this file is stated for an arbitrary label type `ε` with decidable equality (integers,
+    rationals = the exactly represented floats of a float-labelled `decn_space`, strings …).  The harness runs
+    float-labelled candidate sets against the integer ids of the table model through the injective map
+    label ↦ id: a decision is a feasible subset of the labelled candidate set iff its image is one of the
+    id set. -/
+theorem feasible_relabel {ε' : Type} [DecidableEq ε'] (f : ε → ε') (hf : Function.Injective f)
+    (space : List ε) (k : ℕ) (x : List ε) :
+    Feasible (space.map f) k (x.map f) ↔ Feasible space k x := by
+  unfold Feasible
+  rw [List.nodup_map_iff hf, List.length_map]
+  constructor
+  · rintro ⟨h1, h2, h3⟩
+    refine ⟨h1, fun e he => ?_, h3⟩
+    have := h2 (f e) (List.mem_map_of_mem he)
+    exact (List.mem_map_of_injective hf).1 this
+  · rintro ⟨h1, h2, h3⟩
+    refine ⟨h1, fun e he => ?_, h3⟩
+    obtain ⟨a, ha, rfl⟩ := List.mem_map.1 he
+    exact List.mem_map_of_mem (h2 a ha)
+
+example : Function.Injective (fun z : ℤ => ((z : ℚ) + 1 / 2) / 4) ∧
+    Feasible ([7, 3, 5, 1] : List ℤ) 2 [5, 7] := by
+  refine ⟨fun a b h => ?_, by decide, by decide, rfl⟩
+  have h' : ((a : ℚ) + 1 / 2) / 4 = ((b : ℚ) + 1 / 2) / 4 := h
+  have : (a : ℚ) = b := by linarith
+  exact_mod_cast this
+
+/-- the Spec at rational labels (`c06.spec_solution` with `labels`): members by VALUE -/
+example : feasibleB ([7 / 4, -1 / 2, 3, 17 / 4] : List ℚ) 2 [3, 7 / 4] = true ∧
+    feasibleB ([7 / 4, -1 / 2, 3, 17 / 4] : List ℚ) 2 [3, 2] = false := by decide +kernel
+
+/-- **Casting a decision to an integer type is not label-preserving**: on a candidate set with non-integral
+    labels the truncated chromosome (numpy `astype(int)`: toward zero) leaves the candidate set, and two
+    members may collide — why a returned decision must carry the candidates' own labels. -/
+theorem label_cast_to_int_counterexample :
+    feasibleB ([7 / 4, -1 / 2, 3, 5 / 4] : List ℚ) 2 [7 / 4, 5 / 4] = true ∧
+    feasibleB ([7 / 4, -1 / 2, 3, 5 / 4] : List ℚ) 2 ([7 / 4, 5 / 4].map (fun q : ℚ => ((Int.tdiv q.num q.den : ℤ) : ℚ))) = false ∧
+    ([7 / 4, 5 / 4] : List ℚ).map (fun q : ℚ => ((Int.tdiv q.num q.den : ℤ) : ℚ)) = [1, 1] := by
+  decide +kernel
+
 /-- **Sampling establishes feasibility iff it is done without replacement.**  `replace` is the
     flag handed to `np.random.choice`; a draw is any list of `k` positions, duplicate-free when
     `replace = false`. -/
